@@ -156,5 +156,5 @@ def run(ctx):
                             check(ctx, x, xvals, kname, k, case, True, elementwise_k=list(k))
             if i < 2 and ctx.shard == 0:
                 ctx.sample({"x": programs.render(spec), "quantity_kind": qkind, "length": n})
-    ctx.inconclusive_if(probe.COUNTS["Array._DoOperation"] == 0 and probe.COUNTS["Array.__rmul__"] == 0, "Array operators never reached")
+    ctx.inconclusive_if(probe.COUNTS["Array.__rmul__"] == 0, "Array operators never reached")
     ctx.inconclusive_if(probe.COUNTS["Scalar.__rtruediv__"] == 0 or probe.COUNTS["Array.__rsub__"] == 0, "reflected operators never reached")
